@@ -1,8 +1,12 @@
 //! Registry: which families of cases make up each check at each tier, and replay dispatch.
 use crate::alphabet::{Chars, Soup, CONTEXTS, GAPS3, GAPS5, SIGMA};
 use crate::cfg::{self, Cfg, C_QUICK};
+use crate::grammar::Grammar;
 use crate::oracles as o;
+use crate::oracles2 as o2;
+use crate::progs::{self, pf, sf, RelayoutOpts, Seed, VariantOpts};
 use crate::runner::{Ctx, Family};
+use std::sync::Arc;
 use serde_json::{json, Value};
 
 pub trait TextSource: Send + Sync {
@@ -159,21 +163,260 @@ fn or_c04() -> TextOracle {
     })
 }
 
+
+const W_QUICK: [u32; 6] = [16, 24, 30, 60, 120, 200];
+const W_FULL: [u32; 13] = [10, 16, 20, 24, 30, 40, 50, 60, 80, 100, 120, 160, 200];
+
+fn wf_seeds() -> Arc<Vec<Seed>> {
+    Arc::new(progs::load_seeds().into_iter().filter(|s| s.well_formed).collect())
+}
+fn all_seeds() -> Arc<Vec<Seed>> {
+    Arc::new(progs::load_seeds())
+}
+
+fn vopts(comments: bool, directives: bool, gap_flips: bool) -> VariantOpts {
+    VariantOpts { comments, directives, gap_flips }
+}
+
+/// run `f(text)` on every variant of a program, counting each as an evaluation
+fn prog_variants(
+    label: &str,
+    g: &Arc<Grammar>,
+    d: usize,
+    cfgs: &[Cfg],
+    vo: fn() -> VariantOpts,
+    f: fn(&str, &Cfg, &mut Ctx),
+) -> Box<dyn Family> {
+    pf(
+        label,
+        g,
+        d,
+        cfgs,
+        Box::new(move |g, toks, c, ctx| {
+            let mut first = true;
+            progs::for_variants(g, toks, &vo(), |t, _kind| {
+                if !first {
+                    ctx.sub_eval();
+                }
+                first = false;
+                f(t, c, ctx);
+            });
+        }),
+    )
+}
+
+fn f_c02(x: &str, c: &Cfg, ctx: &mut Ctx) {
+    let out = ctx.fmt(c, x);
+    o2::c02(x, &out, c, ctx);
+}
+fn f_c03(x: &str, c: &Cfg, ctx: &mut Ctx) {
+    o2::c03(x, c, ctx);
+}
+fn f_c01(x: &str, c: &Cfg, ctx: &mut Ctx) {
+    let out = ctx.fmt(c, x);
+    o::c01(x, &out, c, ctx);
+}
+fn f_c08_eof(x: &str, c: &Cfg, ctx: &mut Ctx) {
+    let out = ctx.fmt(c, x);
+    o::c08(x, &out, c, &o::C08Opts { eof_clause: true }, ctx);
+}
+fn f_c14_wf(x: &str, _c: &Cfg, ctx: &mut Ctx) {
+    o::c14(x, &o::C14Opts { well_formed: true }, ctx);
+}
+fn f_c13(x: &str, c: &Cfg, ctx: &mut Ctx) {
+    o::c13(x, ctx);
+    let out = ctx.fmt(c, x);
+    o::c13(&out, ctx);
+}
+fn f_c09(x: &str, c: &Cfg, ctx: &mut Ctx) {
+    o2::c09(x, c, ctx);
+}
+fn vo_base() -> VariantOpts {
+    vopts(false, false, false)
+}
+fn vo_flips() -> VariantOpts {
+    vopts(false, false, true)
+}
+fn vo_all() -> VariantOpts {
+    vopts(true, true, true)
+}
+fn vo_cd() -> VariantOpts {
+    vopts(true, true, false)
+}
+
+fn seed_texts(label: &str, seeds: &Arc<Vec<Seed>>, cfgs: &[Cfg], f: fn(&str, &Cfg, &mut Ctx)) -> Box<dyn Family> {
+    sf(label, seeds, cfgs, Box::new(move |s, c, ctx| f(&s.text, c, ctx)))
+}
+
+fn c05_family(g: &Arc<Grammar>, d: usize, cfgs: &[Cfg], flips: bool) -> Box<dyn Family> {
+    pf(
+        "c05",
+        g,
+        d,
+        cfgs,
+        Box::new(move |_g, toks, c, ctx| {
+            use crate::layout::{self, Base};
+            let mut first = true;
+            let mut run = |gaps: &Vec<String>, ctx: &mut Ctx| {
+                if !first {
+                    ctx.sub_eval();
+                }
+                first = false;
+                let x = layout::render(toks, gaps);
+                let out = ctx.fmt(c, &x);
+                if o2::c02(&x, &out, c, ctx) {
+                    o2::c05(&x, toks, &out, c, ctx);
+                }
+            };
+            for b in [Base::L0, Base::L1, Base::L2] {
+                run(&layout::base_gaps(toks, b), ctx);
+            }
+            if flips {
+                let frozen = layout::frozen_gaps(toks);
+                let l1 = layout::base_gaps(toks, Base::L1);
+                for i in 1..toks.len() {
+                    if frozen[i] || toks[i].hard_nl {
+                        continue;
+                    }
+                    let mut gaps = l1.clone();
+                    gaps[i] = "\n".to_string();
+                    run(&gaps, ctx);
+                }
+            }
+        }),
+    )
+}
+
+fn c06_prog_family(g: &Arc<Grammar>, d: usize, cfgs: &[Cfg], opts: fn() -> RelayoutOpts) -> Box<dyn Family> {
+    pf(
+        "c06",
+        g,
+        d,
+        cfgs,
+        Box::new(move |_g, toks, c, ctx| {
+            let texts = progs::base_texts(toks);
+            // L0, L1, L2 must agree with each other ...
+            let o0 = ctx.fmt(c, &texts[0]);
+            for t in &texts[1..] {
+                ctx.sub_eval();
+                ctx.nontrivial();
+                let o = ctx.fmt(c, t);
+                if o != o0 {
+                    ctx.fail(
+                        "C06",
+                        "layout-dependent-output",
+                        o2::first_diff_line(&o0, &o),
+                        json!({"oracle": "c06", "input": texts[0], "input2": t, "cfg": c}),
+                    );
+                }
+            }
+            // ... and every bounded re-layout of L0 with L0
+            progs::c06_relayouts(&texts[0], c, &opts(), ctx);
+        }),
+    )
+}
+fn ro_singles() -> RelayoutOpts {
+    RelayoutOpts { singles: true, pairs: false, all_assignments_upto: 0 }
+}
+fn ro_deep() -> RelayoutOpts {
+    RelayoutOpts { singles: true, pairs: true, all_assignments_upto: 12 }
+}
+fn ro_mid() -> RelayoutOpts {
+    RelayoutOpts { singles: true, pairs: false, all_assignments_upto: 10 }
+}
+
+fn c09_variants(x: &str, c: &Cfg, pairs: bool, ctx: &mut Ctx) {
+    // x with all LF, then every single (and pair of) terminator(s) flipped to CRLF
+    let lf = o2::to_lf(x);
+    o2::c09(&lf, c, ctx);
+    if o2::has_lone_cr(&lf) {
+        return;
+    }
+    let pos: Vec<usize> = lf.match_indices('\n').map(|(i, _)| i).collect();
+    if pos.is_empty() {
+        return;
+    }
+    ctx.sub_eval();
+    o2::c09(&o2::to_crlf(&lf), c, ctx);
+    let flip = |which: &[usize]| {
+        let mut s = String::with_capacity(lf.len() + 4);
+        let mut last = 0;
+        for &w in which {
+            s.push_str(&lf[last..pos[w]]);
+            s.push_str("\r\n");
+            last = pos[w] + 1;
+        }
+        s.push_str(&lf[last..]);
+        s
+    };
+    if pos.len() <= 40 {
+        for a in 0..pos.len() {
+            ctx.sub_eval();
+            o2::c09(&flip(&[a]), c, ctx);
+        }
+    }
+    if pairs && pos.len() <= 8 {
+        for a in 0..pos.len() {
+            for b in (a + 1)..pos.len() {
+                ctx.sub_eval();
+                o2::c09(&flip(&[a, b]), c, ctx);
+            }
+        }
+    }
+}
+
 pub fn families(check: &str, tier: &str) -> Vec<Box<dyn Family>> {
     let quick = tier == "quick";
     let one = [cfg::DEFAULT];
+    let full = cfg::c_full();
+    let g = |d: usize| Arc::new(Grammar::load(d));
     match check {
         "C01" => {
             if quick {
                 vec![
                     tf("c01", soup(2, GAPS5, CONTEXTS), &C_QUICK, or_c01()),
                     tf("c01", Chars { n: 3 }, &C_QUICK[..2], or_c01()),
+                    prog_variants("c01", &g(1), 1, &C_QUICK[..2], vo_cd, f_c01),
                 ]
             } else {
                 vec![
-                    tf("c01", soup(2, GAPS5, CONTEXTS), &cfg::c_full(), or_c01()),
+                    tf("c01", soup(2, GAPS5, CONTEXTS), &full, or_c01()),
                     tf("c01", soup(3, GAPS3, CONTEXTS), &C_QUICK[..2], or_c01()),
                     tf("c01", Chars { n: 4 }, &C_QUICK[..2], or_c01()),
+                    prog_variants("c01", &g(2), 2, &C_QUICK, vo_cd, f_c01),
+                    seed_texts("c01", &all_seeds(), &full, f_c01),
+                ]
+            }
+        }
+        "C02" => {
+            if quick {
+                vec![
+                    prog_variants("c02", &g(2), 2, &C_QUICK, vo_base, f_c02),
+                    prog_variants("c02", &g(1), 1, &C_QUICK[..3], vo_all, f_c02),
+                    seed_texts("c02", &wf_seeds(), &C_QUICK, f_c02),
+                ]
+            } else {
+                vec![
+                    prog_variants("c02", &g(3), 3, &C_QUICK[..3], vo_base, f_c02),
+                    prog_variants("c02", &g(2), 2, &C_QUICK, vo_all, f_c02),
+                    prog_variants("c02", &g(2), 2, &full, vo_base, f_c02),
+                    seed_texts("c02", &wf_seeds(), &full, f_c02),
+                ]
+            }
+        }
+        "C03" => {
+            if quick {
+                vec![
+                    prog_variants("c03", &g(2), 2, &C_QUICK, vo_base, f_c03),
+                    prog_variants("c03", &g(1), 1, &C_QUICK[..3], vo_all, f_c03),
+                    seed_texts("c03", &wf_seeds(), &C_QUICK, f_c03),
+                ]
+            } else {
+                vec![
+                    prog_variants("c03", &g(3), 3, &C_QUICK[..3], vo_base, f_c03),
+                    prog_variants("c03", &g(2), 2, &C_QUICK, vo_all, f_c03),
+                    prog_variants("c03", &g(2), 2, &full, vo_base, f_c03),
+                    seed_texts("c03", &wf_seeds(), &full, f_c03),
                 ]
             }
         }
@@ -190,30 +433,139 @@ pub fn families(check: &str, tier: &str) -> Vec<Box<dyn Family>> {
                 ]
             }
         }
+        "C05" => {
+            // wrap_column >= 30: at narrower widths the headers that open blocks are themselves
+            // broken over several lines and "the line that opens the block" stops being well defined
+            let c05q: Vec<Cfg> = C_QUICK.iter().copied().filter(|c| c.wrap >= 30).collect();
+            let c05f: Vec<Cfg> = full.iter().copied().filter(|c| c.wrap >= 30).collect();
+            if quick {
+                vec![c05_family(&g(2), 2, &c05q, false)]
+            } else {
+                vec![
+                    c05_family(&g(3), 3, &c05q[..3], false),
+                    c05_family(&g(2), 2, &c05f, true),
+                ]
+            }
+        }
+        "C06" => {
+            if quick {
+                vec![
+                    c06_prog_family(&g(2), 2, &C_QUICK[..3], ro_singles),
+                    sf("c06", &wf_seeds(), &C_QUICK[..2], Box::new(|s, c, ctx| progs::c06_relayouts(&s.text, c, &ro_singles(), ctx))),
+                ]
+            } else {
+                vec![
+                    c06_prog_family(&g(2), 2, &C_QUICK, ro_deep),
+                    c06_prog_family(&g(3), 3, &C_QUICK[..2], ro_singles),
+                    sf("c06", &wf_seeds(), &C_QUICK, Box::new(|s, c, ctx| progs::c06_relayouts(&s.text, c, &ro_mid(), ctx))),
+                ]
+            }
+        }
         "C08" => {
             if quick {
                 vec![
                     tf("c08", soup(2, GAPS5, CONTEXTS), &C_QUICK, or_c08(false)),
                     tf("c08", Chars { n: 3 }, &C_QUICK[..2], or_c08(false)),
+                    prog_variants("c08eof", &g(2), 2, &C_QUICK, vo_base, f_c08_eof),
+                    seed_texts("c08eof", &wf_seeds(), &C_QUICK, f_c08_eof),
                 ]
             } else {
                 vec![
-                    tf("c08", soup(2, GAPS5, CONTEXTS), &cfg::c_full(), or_c08(false)),
+                    tf("c08", soup(2, GAPS5, CONTEXTS), &full, or_c08(false)),
                     tf("c08", soup(3, GAPS3, CONTEXTS), &C_QUICK[..2], or_c08(false)),
                     tf("c08", Chars { n: 4 }, &C_QUICK[..2], or_c08(false)),
+                    prog_variants("c08eof", &g(2), 2, &full, vo_all, f_c08_eof),
+                    prog_variants("c08eof", &g(3), 3, &C_QUICK[..2], vo_base, f_c08_eof),
+                    seed_texts("c08eof", &wf_seeds(), &full, f_c08_eof),
                 ]
             }
+        }
+        "C09" => {
+            let others: Vec<Cfg> = C_QUICK[..4].to_vec();
+            if quick {
+                vec![
+                    tf("c09", soup(2, GAPS5, CONTEXTS), &others[..2], Box::new(|x, c, ctx| o2::c09(x, c, ctx))),
+                    tf("c09", Chars { n: 3 }, &others[..2], Box::new(|x, c, ctx| o2::c09(x, c, ctx))),
+                    pf("c09", &g(1), 1, &others, Box::new(|_g, toks, c, ctx| {
+                        let t = progs::base_texts(toks);
+                        c09_variants(&t[0], c, true, ctx);
+                        ctx.sub_eval();
+                        c09_variants(&t[2], c, false, ctx);
+                    })),
+                    sf("c09", &all_seeds(), &others[..2], Box::new(|s, c, ctx| c09_variants(&s.text, c, false, ctx))),
+                ]
+            } else {
+                vec![
+                    tf("c09", soup(2, GAPS5, CONTEXTS), &others, Box::new(|x, c, ctx| o2::c09(x, c, ctx))),
+                    tf("c09", Chars { n: 4 }, &others[..2], Box::new(|x, c, ctx| o2::c09(x, c, ctx))),
+                    pf("c09", &g(2), 2, &others, Box::new(|_g, toks, c, ctx| {
+                        let t = progs::base_texts(toks);
+                        c09_variants(&t[0], c, true, ctx);
+                        ctx.sub_eval();
+                        c09_variants(&t[2], c, false, ctx);
+                    })),
+                    sf("c09", &all_seeds(), &others, Box::new(|s, c, ctx| c09_variants(&s.text, c, true, ctx))),
+                ]
+            }
+        }
+        "C10" => {
+            let tws: &'static [u8] = if quick { &[0, 1, 2, 4, 8, 85] } else { &[0, 1, 2, 3, 4, 8, 16, 17, 85, 127, 128, 255] };
+            let cis: &'static [u8] = if quick { &[0, 1, 2, 3] } else { &[0, 1, 2, 3, 15, 16, 127, 255] };
+            let bases = [cfg::DEFAULT, cfg::DEFAULT.with(|c| { c.begin = cfg::BeginStyle::AlwaysWrap; c.le = cfg::Le::Crlf; })];
+            let body = move |x: &str, c: &Cfg, ctx: &mut Ctx| {
+                let mut first = true;
+                for &tw in tws {
+                    for &ci in cis {
+                        if !first { ctx.sub_eval(); }
+                        first = false;
+                        o2::c10_pair(x, tw, ci, c, ctx);
+                    }
+                }
+                ctx.sub_eval();
+                o2::c10_linear(x, cis, c, ctx);
+            };
+            let d = if quick { 1 } else { 2 };
+            vec![
+                pf("c10", &g(d), d, &bases, Box::new(move |_g, toks, c, ctx| {
+                    let t = progs::base_texts(toks);
+                    body(&t[1], c, ctx);
+                })),
+                sf("c10", &wf_seeds(), &bases[..if quick { 1 } else { 2 }], Box::new(move |s, c, ctx| body(&s.text, c, ctx))),
+            ]
+        }
+        "C11" => {
+            let ws: &'static [u32] = if quick { &W_QUICK } else { &W_FULL };
+            let bases = [
+                cfg::DEFAULT,
+                cfg::DEFAULT.with(|c| c.begin = cfg::BeginStyle::AlwaysWrap),
+                cfg::DEFAULT.with(|c| { c.tw = 4; c.ci = 1; }),
+                cfg::DEFAULT.with(|c| { c.begin = cfg::BeginStyle::AlwaysWrap; c.tw = 4; c.ci = 1; }),
+            ];
+            let d = if quick { 2 } else { 3 };
+            let nb = if quick { 2 } else { 4 };
+            vec![
+                pf("c11", &g(d), d, &bases[..if quick { 2 } else { 2 }], Box::new(move |_g, toks, c, ctx| {
+                    let t = progs::base_texts(toks);
+                    o2::c11(&t[1], ws, c, ctx);
+                })),
+                sf("c11", &wf_seeds(), &bases[..nb], Box::new(move |s, c, ctx| o2::c11(&s.text, ws, c, ctx))),
+            ]
         }
         "C13" => {
             if quick {
                 vec![
                     tf("c13", Chars { n: 4 }, &one, or_c13()),
                     tf("c13", soup(2, GAPS5, CONTEXTS), &one, or_c13()),
+                    prog_variants("c13", &g(1), 1, &one, vo_cd, f_c13),
+                    seed_texts("c13", &all_seeds(), &one, f_c13),
                 ]
             } else {
                 vec![
                     tf("c13", Chars { n: 5 }, &one, or_c13()),
                     tf("c13", soup(2, GAPS5, CONTEXTS), &one, or_c13()),
+                    tf("c13", soup(3, GAPS3, &["%", "asm % end"]), &one, or_c13()),
+                    prog_variants("c13", &g(2), 2, &one, vo_cd, f_c13),
+                    seed_texts("c13", &all_seeds(), &C_QUICK, f_c13),
                 ]
             }
         }
@@ -222,11 +574,17 @@ pub fn families(check: &str, tier: &str) -> Vec<Box<dyn Family>> {
                 vec![
                     tf("c14", soup(2, GAPS5, CONTEXTS), &one, or_c14(false)),
                     tf("c14", Chars { n: 3 }, &one, or_c14(false)),
+                    prog_variants("c14wf", &g(2), 2, &one, vo_base, f_c14_wf),
+                    prog_variants("c14wf", &g(1), 1, &one, vo_all, f_c14_wf),
+                    seed_texts("c14wf", &wf_seeds(), &one, f_c14_wf),
                 ]
             } else {
                 vec![
                     tf("c14", soup(3, GAPS3, CONTEXTS), &one, or_c14(false)),
                     tf("c14", Chars { n: 4 }, &one, or_c14(false)),
+                    prog_variants("c14wf", &g(3), 3, &one, vo_base, f_c14_wf),
+                    prog_variants("c14wf", &g(2), 2, &one, vo_all, f_c14_wf),
+                    seed_texts("c14wf", &wf_seeds(), &one, f_c14_wf),
                 ]
             }
         }
@@ -256,6 +614,30 @@ pub fn replay(case: &Value, ctx: &mut Ctx) -> bool {
             o::c08(&input, &out, &c, &o::C08Opts { eof_clause: eof }, ctx);
         }
         "c13" => o::c13(&input, ctx),
+        "c02" => {
+            let out = ctx.fmt(&c, &input);
+            o2::c02(&input, &out, &c, ctx);
+        }
+        "c03" => o2::c03(&input, &c, ctx),
+        "c06" => {
+            let input2 = case["input2"].as_str().unwrap_or("").to_string();
+            o2::c06(&input, &input2, &c, ctx);
+        }
+        "c09" => o2::c09(&input, &c, ctx),
+        "c10" => o2::c10_pair(
+            &input,
+            case["tw"].as_u64().unwrap_or(2) as u8,
+            case["ci"].as_u64().unwrap_or(2) as u8,
+            &c,
+            ctx,
+        ),
+        "c10_linear" => o2::c10_linear(&input, &[case["ci"].as_u64().unwrap_or(2) as u8], &c, ctx),
+        "c11" => o2::c11(
+            &input,
+            &[case["w1"].as_u64().unwrap_or(30) as u32, case["w2"].as_u64().unwrap_or(120) as u32],
+            &c,
+            ctx,
+        ),
         "c14" => o::c14(
             &input,
             &o::C14Opts {
